@@ -21,3 +21,9 @@ Definition x_sl_prepare (fuel_bp : N) (net : list Linkf) (tp : TPf) (route : lis
   res_outs (sl_prepare (N.to_nat fuel_bp) net tp route rp fb st c)
            (fun r => match r with (p, pts, idx) =>
               nat_out idx :: nat_out (length pts) :: flat_map bp_outs pts ++ speed_outs p end).
+
+Definition x_sl_timed_walk (fuel_bp fuel_steps : N) (net : list Linkf) (tp : TPf) (tl : list (Z * float))
+    (rp : ResParams (F:=float)) (fmax : float) (fb : FricBrake (F:=float)) (st : TStatef) (c : ResCache)
+    (con : Consistf) : list out :=
+  res_outs (sl_timed_walk (N.to_nat fuel_bp) (N.to_nat fuel_steps) net tp tl rp fmax fb st c con)
+           (fun r => sl_outs (fst r) ++ consist_outs (snd r)).
